@@ -343,86 +343,7 @@ func runC10(w *core.World, r *core.Report) {
 	r.Floor("R2", "stores to seal/lock", nlock, 4)
 
 	// ---- R5 -----------------------------------------------------------------------------------
-	dt := map[string]int64{}
-	for _, n := range []string{"DATATYPE_BIN", "DATATYPE_MENU", "DATATYPE_TEMPLATE", "DATATYPE_STATICLOAD", "DATATYPE_STATE", "DATATYPE_USERDATA"} {
-		if v, ok := constOf(w, r, "db", n); ok {
-			dt[n] = v
-		}
-	}
-	if len(dt) == 6 {
-		if sk := anchor(w, r, "db", "(*DbBase).ToSessionKey"); sk != nil {
-			set := map[string]bool{}
-			found := false
-			for _, b := range sk.Blocks {
-				for _, in := range b.Instrs {
-					bo, ok := in.(*ssa.BinOp)
-					if !ok {
-						continue
-					}
-					x0, op0, c, isC := core.CmpConst(bo)
-					if !isC || paramIndex(x0) != 1 {
-						continue
-					}
-					// the true edge must be the one that prepends the session id
-					found = true
-					for n, v := range dt {
-						var t bool
-						switch op0 {
-						case token.GTR:
-							t = v > c
-						case token.GEQ:
-							t = v >= c
-						case token.LSS:
-							t = v < c
-						case token.LEQ:
-							t = v <= c
-						case token.EQL:
-							t = v == c
-						case token.NEQ:
-							t = v != c
-						}
-						// which edge uses sid?
-						usesSidOnTrue := false
-						for _, e := range core.EdgesWhere(bo, true) {
-							for _, bb := range dominatedRegion(e.To()) {
-								for _, x := range bb.Instrs {
-									if vv, ok := x.(ssa.Value); ok {
-										if _, f, ok := core.LoadedField(vv); ok && f == "sid" {
-											usesSidOnTrue = true
-										}
-									}
-								}
-							}
-						}
-						if t == usesSidOnTrue {
-							set[n] = true
-						}
-					}
-				}
-			}
-			want := "{DATATYPE_STATE,DATATYPE_USERDATA}"
-			r.Check(found && setStr(set) == want, "R5", "db.(*DbBase).ToSessionKey: sessioned types", sk.Pos(), "session prefix for "+setStr(set), "session prefix is applied to "+setStr(set)+", documented: "+want)
-		}
-		wantMask := dt["DATATYPE_MENU"] | dt["DATATYPE_TEMPLATE"] | dt["DATATYPE_STATICLOAD"]
-		for _, nm := range []string{"ToDbKey", "(*DbBase).ToKey", "FromDbKey"} {
-			fn := anchor(w, r, "db", nm)
-			if fn == nil {
-				continue
-			}
-			masks := map[int64]bool{}
-			for _, b := range fn.Blocks {
-				for _, in := range b.Instrs {
-					if bo, ok := in.(*ssa.BinOp); ok && bo.Op == token.AND {
-						if c, isC := core.ConstInt(bo.Y); isC && c < 64 {
-							masks[c] = true
-						}
-					}
-				}
-			}
-			ok := len(masks) == 1 && masks[wantMask]
-			r.Check(ok, "R5", "db."+nm+": language-scoped types", fn.Pos(), fmt.Sprintf("mask %d = MENU|TEMPLATE|STATICLOAD", wantMask), fmt.Sprintf("language scoping uses mask(s) %v, documented MENU|TEMPLATE|STATICLOAD = %d", keysInt(masks), wantMask))
-		}
-	}
+	checkScopedTypes(w, r, "R5")
 
 	// ---- R6 -----------------------------------------------------------------------------------
 	ms := mustSafeFn(w)
@@ -697,4 +618,91 @@ func helperReadsStoreWithParam(g *ssa.Function, pi int) bool {
 		}
 	}
 	return false
+}
+
+// checkScopedTypes: the session prefix is applied exactly for STATE and USERDATA (threshold
+// comparison on the type parameter, evaluated over the six built-in types), and the language
+// suffix exactly for MENU, TEMPLATE and STATICLOAD.
+func checkScopedTypes(w *core.World, r *core.Report, rule string) {
+	dt := map[string]int64{}
+	for _, n := range []string{"DATATYPE_BIN", "DATATYPE_MENU", "DATATYPE_TEMPLATE", "DATATYPE_STATICLOAD", "DATATYPE_STATE", "DATATYPE_USERDATA"} {
+		if v, ok := constOf(w, r, "db", n); ok {
+			dt[n] = v
+		}
+	}
+	if len(dt) == 6 {
+		if sk := anchor(w, r, "db", "(*DbBase).ToSessionKey"); sk != nil {
+			set := map[string]bool{}
+			found := false
+			for _, b := range sk.Blocks {
+				for _, in := range b.Instrs {
+					bo, ok := in.(*ssa.BinOp)
+					if !ok {
+						continue
+					}
+					x0, op0, c, isC := core.CmpConst(bo)
+					if !isC || paramIndex(x0) != 1 {
+						continue
+					}
+					// the true edge must be the one that prepends the session id
+					found = true
+					for n, v := range dt {
+						var t bool
+						switch op0 {
+						case token.GTR:
+							t = v > c
+						case token.GEQ:
+							t = v >= c
+						case token.LSS:
+							t = v < c
+						case token.LEQ:
+							t = v <= c
+						case token.EQL:
+							t = v == c
+						case token.NEQ:
+							t = v != c
+						}
+						// which edge uses sid?
+						usesSidOnTrue := false
+						for _, e := range core.EdgesWhere(bo, true) {
+							for _, bb := range dominatedRegion(e.To()) {
+								for _, x := range bb.Instrs {
+									if vv, ok := x.(ssa.Value); ok {
+										if _, f, ok := core.LoadedField(vv); ok && f == "sid" {
+											usesSidOnTrue = true
+										}
+									}
+								}
+							}
+						}
+						if t == usesSidOnTrue {
+							set[n] = true
+						}
+					}
+				}
+			}
+			want := "{DATATYPE_STATE,DATATYPE_USERDATA}"
+			r.Check(found && setStr(set) == want, rule, "db.(*DbBase).ToSessionKey: sessioned types", sk.Pos(), "session prefix for "+setStr(set), "session prefix is applied to "+setStr(set)+", documented: "+want)
+		}
+		wantMask := dt["DATATYPE_MENU"] | dt["DATATYPE_TEMPLATE"] | dt["DATATYPE_STATICLOAD"]
+		for _, nm := range []string{"ToDbKey", "(*DbBase).ToKey", "FromDbKey"} {
+			fn := anchor(w, r, "db", nm)
+			if fn == nil {
+				continue
+			}
+			masks := map[int64]bool{}
+			for _, b := range fn.Blocks {
+				for _, in := range b.Instrs {
+					if bo, ok := in.(*ssa.BinOp); ok && bo.Op == token.AND {
+						if c, isC := core.ConstInt(bo.Y); isC && c < 64 {
+							masks[c] = true
+						}
+					}
+				}
+			}
+			ok := len(masks) == 1 && masks[wantMask]
+			r.Check(ok, rule, "db."+nm+": language-scoped types", fn.Pos(), fmt.Sprintf("mask %d = MENU|TEMPLATE|STATICLOAD", wantMask), fmt.Sprintf("language scoping uses mask(s) %v, documented MENU|TEMPLATE|STATICLOAD = %d", keysInt(masks), wantMask))
+		}
+	}
+
 }
